@@ -14,6 +14,7 @@ EXPLANATION = (
     "the first item is returned only on the is_none edge of the second; the exact lookup is tried as well so an exact name "
     "wins; the candidate iterator covers names and ALL aliases (get_all_aliases / get_all_long_flag_aliases / Arg::aliases). "
     "R8.4 the escape token itself changes nothing but the mode: in Parser::parse the region entered on is_escape() calls no ArgMatcher/Parser mutator other than start_trailing (in particular it does not resolve the pending positional, so `a -- b` groups values like `a b`). R8.2b alias siblings: aliases_to / short_flag_aliases_to / long_flag_aliases_to answer `primary spelling || any(all aliases)` on every path. NOT decided: equality of matches under rewrites (needs execution)."
+    ' R8.3 (added): inference candidates are drawn from every subcommand/argument (no pre-filter) and a subcommand lookup answers only with the unique inferred candidate or the exact name (return-value census).'
 )
 TRUSTED = ["rustc MIR", "clapfacts"]
 ASSUMPTIONS = ["C13 R13.3 (split at the first `=`) and C02 R2.4 (short attached value) are checked by their own properties too"]
